@@ -76,6 +76,44 @@ let pipe_case t =
     (consistent_b a) (no_cross_b a) (complete !s) (all_retrievable_b !s a));
   Buffer.contents b
 
+(* ---- path lookup on scripted trees *)
+let tree_case t =
+  let ntrees = ni t in
+  let trees = ntimes ntrees (fun () ->
+    let id = ni t in
+    let n = ni t in
+    let nodes = ntimes n (fun () ->
+      let stored = unhex (next t) in
+      let sub = ni t in let tag = ni t in
+      { n_name = stored; n_subtree = (if sub = 0 then None else Some (n_of_int sub)); n_tag = n_of_int tag }) in
+    (id, nodes)) in
+  let r id = let i = int_of_n id in (try Some (List.assoc i trees) with Not_found -> None) in
+  let root = n_of_int (ni t) in
+  let b = Buffer.create 128 in
+  Buffer.add_string b "ok ls=";
+  let listing = ls (nat_of_int (ntrees + 1)) r root in
+  Buffer.add_string b (String.concat "," (List.map (fun (p, n) ->
+    String.concat "/" (List.map tohex p) ^ ":" ^ string_of_int (int_of_n n.n_tag)) listing));
+  Buffer.add_string b " | q=";
+  let nq = ni t in
+  let res = ntimes nq (fun () ->
+    let nc = ni t in
+    let comps = ntimes nc (fun () -> unhex (next t)) in
+    match node_from_path lookup_binary_search lookup_compares_stored r root comps with
+    | Some n -> string_of_int (int_of_n n.n_tag)
+    | None -> "-") in
+  Buffer.add_string b (String.concat "," res);
+  Buffer.contents b
+
+(* ---- time conversion *)
+let time_case t =
+  let s = ni t in let n = ni t in
+  match capture (z_of_int s, z_of_int n) with
+  | None -> "ok cap=none res=-"
+  | Some j ->
+    let (rs, rn) = restore_time restore_time_direct j in
+    Printf.sprintf "ok cap=%d:%d res=%d:%d" (int_of_z (fst j)) (int_of_z (snd j)) (int_of_z rs) (int_of_z rn)
+
 let case line =
   let t = toks line in
   match next t with
@@ -83,6 +121,8 @@ let case line =
   | "NU" -> names_u t
   | "R" -> read_case t
   | "P" -> pipe_case t
+  | "T" -> tree_case t
+  | "M" -> time_case t
   | m -> "unknown-mode " ^ m
 
 let () = main_loop case
